@@ -10,6 +10,8 @@ in `try_update`, is a trace mismatch.
 -/
 import Woodpile.Proofs.AtomicBaseTime
 import Woodpile.Proofs.AbtRA
+import Woodpile.Proofs.NfsVoucher
+import Woodpile.Props.C13R
 
 namespace Woodpile.Props.C18
 open Woodpile.Abt
@@ -164,5 +166,154 @@ example :
        .start 2 (.tryUpdate 9 109), .run 2 0]).map
       (fun s => decide ((s.thr 1).loc.pc = .retSnap ∧ (s.thr 1).loc.base = 0 ∧
         (s.thr 2).loc.pc = .retBool false)) = some true := by decide
+
+end Woodpile.Props.C18
+
+namespace Woodpile.Props.C18
+open Woodpile.Abt
+
+/-! ## Track abt2 (claim-audit gap 18): one uniform termination statement on the view machine,
+and "the retry was caused by a publication during this snapshot" -/
+
+/-- SC: `sc_retry_only_on_publish` plus *during*: the sequence number the failed iteration was
+based on is at least the number of updates published when the snapshot began
+(`s.start t ≤ sq < mem seq`), so update number `sq + 1` - which exists, `start t + 1 < |hist|` -
+was published after this snapshot began (at its start the history ended at `start t`): a write
+completed during its read.  A retry does not move `start`. -/
+theorem sc_retry_only_on_publish_during {chk : Nat → Nat → Bool} {v0 : Nat} (h0 : chk 0 v0 = true) {s s' : SC.State}
+    (h : SC.Reachable chk v0 s) (t ts : Nat) (hpc : (s.thr t).pc = .sSeq2)
+    (hs : SC.step chk s (.run t ts) = some s') (hretry : (s'.thr t).pc = .sV) :
+    s.start t ≤ (s.thr t).sq ∧ (s.thr t).sq < s.mem .seq ∧ s.start t + 1 < s.hist.length ∧
+    (s'.thr t).sq = s.mem .seq ∧ s'.start t = s.start t :=
+  SC.retry_publish_during (SC.inv_reachable h0 h) t ts hpc hs hretry
+
+/-- RA: `ra_retry_only_on_publish` plus *during*, in the only sense the view machine has: the
+sequence message the failed iteration was based on is at or above the reader's view of
+`sequence` when the snapshot began (`s.start t ≤ sq`), and the re-check read a strictly newer
+message `ts`; so message `ts` is NOT among those that happened-before the start of this
+snapshot - its publication is concurrent with or after the snapshot's start. -/
+theorem ra_retry_only_on_publish_during {chk : Nat → Nat → Bool} {v0 : Nat} (h0 : chk 0 v0 = true) {s s' : RA.State}
+    (h : RA.Reachable chk v0 s) (t ts : Nat) (hpc : (s.thr t).loc.pc = .sSeq2)
+    (hs : RA.step chk s (.run t ts) = some s') (hretry : (s'.thr t).loc.pc = .sV) :
+    s.start t ≤ (s.thr t).loc.sq ∧ (s.thr t).loc.sq < ts ∧ ts < (s.mem .seq).length ∧
+    (s'.thr t).loc.sq = ts ∧ s'.mem = s.mem ∧ s'.start t = s.start t :=
+  RA.retry_publish_during (RA.inv_reachable h0 h) t ts hpc hs hretry
+
+/-- RA, uniform termination (same shape as `sc_solo_snapshot_terminates`): from any reachable
+state, every other thread frozen anywhere (a writer may hold the lock forever, half way through
+its stores), the reader `t` run alone returns within `RA.soloMeasure s t` own steps WHATEVER
+admissible messages its loads are made to read: `pick j s'` chooses the timestamp read by its
+`j`-th step in state `s'`, arbitrarily (adversarially) subject only to `RA.Admissible` - at or
+after the reader's view of that location, and already written.  `RA.solo … k s` is the run
+"`t` steps `k` times with those choices" (`ra_solo_is_run`).  Memory is unchanged.
+The bound depends on the state - `3·(n − sq) + (4, 3, 2 or 1)`, `n` the last published
+sequence number, `sq` the sequence message the current iteration is based on (`view(sequence)`
+at `sSeq`) - and must: the view machine lets a reader that has not synchronised be fed each
+of the `n − sq` sequence messages it has not seen, one stale re-check at a time. -/
+theorem ra_solo_snapshot_terminates_uniform {chk : Nat → Nat → Bool} {v0 : Nat} (h0 : chk 0 v0 = true)
+    {s : RA.State} (h : RA.Reachable chk v0 s) (t : Nat) (hpc : (s.thr t).loc.pc.inSnap = true)
+    (pick : Nat → RA.State → Nat) (hadm : RA.Admissible chk v0 t pick) :
+    ∃ k, k ≤ RA.soloMeasure s t ∧ ∃ s', RA.solo chk t pick 0 k s = some s' ∧
+      (s'.thr t).loc.pc = .retSnap ∧ s'.mem = s.mem :=
+  RA.solo_terminates h0 t pick hadm (RA.soloMeasure s t) 0 s h hpc (Nat.le_refl _)
+
+/-- `RA.solo` is a run of the machine under the schedule "`t`, `k` times". -/
+theorem ra_solo_is_run (chk : Nat → Nat → Bool) (t : Nat) (pick : Nat → RA.State → Nat) (k j : Nat)
+    (s s' : RA.State) (h : RA.solo chk t pick j k s = some s') :
+    ∃ tss : List Nat, tss.length = k ∧ RA.run chk s (tss.map (.run t ·)) = some s' :=
+  RA.solo_is_run chk t pick k j s s' h
+
+/-- Admissible strategies exist: "always read the latest message" is one (so the hypothesis of
+`ra_solo_snapshot_terminates_uniform` is satisfiable in every state). -/
+theorem ra_latest_admissible {chk : Nat → Nat → Bool} {v0 : Nat} (h0 : chk 0 v0 = true) (t : Nat) :
+    RA.Admissible chk v0 t (RA.pickLatest t) :=
+  RA.pickLatest_admissible h0 t
+
+end Woodpile.Props.C18
+
+namespace Woodpile.Props.C18
+open Woodpile.Abt
+
+/-! Non-vacuity (gap 18).  The writer (thread 0) publishes `(5, 105)` and then stops for ever
+holding the lock half way through a SECOND update (`aStV`); the reader (thread 1) had read
+sequence message 0 before: it is at `sSeq2` with `sq = 0`, `start 1 = 0`; its re-check reads
+message 1 and retries: the hypotheses of `ra_retry_only_on_publish_during` hold
+(`start 1 = 0 ≤ sq = 0 < ts = 1`).  From there `soloMeasure = 3`, and reading the latest
+messages returns the new pair in exactly 3 further steps. -/
+example :
+    (RA.run (fun b v => v == b + 100) (RA.init 100)
+      [.start 1 .snapshot, .run 1 0, .run 1 0, .run 1 0,
+       .start 0 (.update 5 105), .run 0 0, .run 0 0, .run 0 0, .run 0 0, .run 0 0, .run 0 0, .run 0 0, .run 0 0,
+       .start 0 (.update 7 107), .run 0 0, .run 0 1, .run 0 1, .run 0 1, .run 0 0]).map
+      (fun s => decide ((s.thr 1).loc.pc = .sSeq2 ∧ (s.thr 1).loc.sq = 0 ∧ s.start 1 = 0 ∧
+        (s.thr 0).loc.pc = .aStV ∧ s.held = some 0 ∧
+        ((RA.step (fun b v => v == b + 100) s (.run 1 1)).map
+          (fun s' => decide ((s'.thr 1).loc.pc = .sV ∧ (s'.thr 1).loc.sq = 1 ∧ RA.soloMeasure s' 1 = 3))) = some true ∧
+        ((RA.solo (fun b v => v == b + 100) 1 (RA.pickLatest 1) 0 4 s).map
+          (fun s' => decide ((s'.thr 1).loc.pc = .retSnap ∧ (s'.thr 1).loc.base = 5))) = some true))
+      = some true := by decide
+
+/-- SC: the same situation; the hypotheses of `sc_retry_only_on_publish_during` hold. -/
+example :
+    (SC.run (fun b v => v == b + 100) (SC.init 100)
+      [.start 1 .snapshot, .run 1 0, .run 1 0, .run 1 0,
+       .start 0 (.update 5 105), .run 0 0, .run 0 0, .run 0 0, .run 0 0, .run 0 0, .run 0 0, .run 0 0, .run 0 0]).map
+      (fun s => decide ((s.thr 1).pc = .sSeq2 ∧ (s.thr 1).sq = 0 ∧ s.start 1 = 0 ∧ s.mem .seq = 1 ∧
+        ((SC.step (fun b v => v == b + 100) s (.run 1 0)).map (fun s' => decide ((s'.thr 1).pc = .sV))) = some true))
+      = some true := by decide
+
+end Woodpile.Props.C18
+
+namespace Woodpile.Props.C18
+open Woodpile.Abt Woodpile.NfsVoucher
+
+/-! ## `get_base_time_unlocked` (claim-audit gap 10): a statement about the NFS model's function,
+not about an alias -/
+
+/-- `get_base_time_unlocked` inherits the guarantee.  `NfsVoucher.getBaseTimeUnlocked` (the function
+the C19 model and driver run) against `Abt.getBaseTimeUnlockedOp` (the program the H3 trace of the
+real `get_base_time_unlocked` is validated against): from ANY reachable SC state at the crate's
+real voucher check - every other thread frozen wherever it is, a writer holding the lock half
+way through its stores, the mutex poisoned or not - whose most recently published pair is the
+cell of the module state `st`, the caller running alone takes exactly four steps, each an atomic
+load (memory, lock holder, poison flag and history are unchanged: it never acquires or even
+tests the lock and never stores), and returns the very pair `NfsVoucher.getBaseTimeUnlocked st`
+returns, with `st` unchanged.  On the view machine the bounded-own-steps guarantee for the same
+program is `ra_solo_snapshot_terminates_uniform` (`getBaseTimeUnlockedOp = .snapshot`,
+`unlocked_inherits`). -/
+theorem unlocked_is_abt_snapshot {s : SC.State}
+    (h : SC.Reachable chkNat Woodpile.Props.C13R.v0Real s) (tid : Nat) (hterm : (s.thr tid).pc.terminal = true)
+    (st : St) (hcell : SC.cellOf s = some (absCell st)) :
+    getBaseTimeUnlocked st = (st, .pair st.base st.voucher) ∧
+    cellSnapshot st = some (st.base, st.voucher) ∧
+    ∃ s', SC.run chkNat s (.start tid getBaseTimeUnlockedOp :: List.replicate 4 (.run tid 0)) = some s' ∧
+      (s'.thr tid).pc = .retSnap ∧ (s'.thr tid).base = st.base.toNat ∧ (s'.thr tid).bits = st.voucher.toNat ∧
+      s'.mem = s.mem ∧ s'.held = s.held ∧ s'.poisoned = s.poisoned ∧ s'.hist = s.hist :=
+  unlocked_refines Woodpile.Props.C13R.epoch_pair_checks h tid hterm st hcell
+
+/-- Non-vacuity: the hypotheses hold for the initial cell with a writer (thread 1) frozen for
+ever holding the lock after its first slot store (so the state is NOT quiescent). -/
+example :
+    (SC.run chkNat (SC.init Woodpile.Props.C13R.v0Real)
+      [.start 1 (.update 0 Woodpile.Props.C13R.v0Real), .run 1 0, .run 1 0, .run 1 0, .run 1 0, .run 1 0]).map
+      (fun s => decide ((s.thr 1).pc = .aStV ∧ s.held = some 1 ∧ (s.thr 0).pc.terminal = true ∧
+        s.hist.length = 1)) = some true := by decide +kernel
+
+end Woodpile.Props.C18
+
+namespace Woodpile.Props.C18
+open Woodpile.Abt
+
+/-- RA, constant bound: when every load reads the LATEST message of its location (the admissible
+strategy `RA.pickLatest`, `ra_latest_admissible`: what a machine with one copy of memory does),
+the solo reader returns within 6 own steps from any reachable state - exactly the SC bound of
+`sc_solo_snapshot_terminates`.  The state-dependent bound of
+`ra_solo_snapshot_terminates_uniform` is the price of ARBITRARY admissible reads-from choices. -/
+theorem ra_solo_latest_terminates {chk : Nat → Nat → Bool} {v0 : Nat} (h0 : chk 0 v0 = true) {s : RA.State}
+    (h : RA.Reachable chk v0 s) (t : Nat) (hpc : (s.thr t).loc.pc.inSnap = true) :
+    ∃ k, k ≤ 6 ∧ ∃ s', RA.solo chk t (RA.pickLatest t) 0 k s = some s' ∧
+      (s'.thr t).loc.pc = .retSnap ∧ s'.mem = s.mem :=
+  ⟨RA.latestMeasure s t, RA.latestMeasure_le s t,
+    RA.latest_terminates t _ 0 s (RA.inv_reachable h0 h) hpc rfl⟩
 
 end Woodpile.Props.C18
